@@ -5,7 +5,20 @@ NOTES = ("Every check: (A) rebuilds the Coq development and re-reads Print Assum
          "concrete failing input. A broken proof or correspondence without a concrete input is reported as VIOLATION ... no-failing-input-found.")
 _PENDING = "check not built yet in this session (work in progress; see DESIGN.md section 5 for the plan)"
 NOT_APPLICABLE = {("C%02d" % i): _PENDING for i in range(1, 21)}
+NODE_NOTE = ("Trusted: Coq kernel + vm_compute; simulator (scheduler/network re-implementation, state dump), boolean equalities; "
+             "Not in the model: real sockets/timers/goroutine interleavings, I/O errors.")
 TEXT = {
+ "C01": {
+  "level": "Machine-checked proof (Coq, no axioms) of election safety on an abstract vote layer for every cluster size and every interleaving "
+           "(one elected node per term; every leader was elected by a majority of recorded votes; one vote per (term, voter)). The vote layer's steps "
+           "are what the node model's handlers do to (term, votedFor, role, votes counted); the node model (one Gallina function per Go handler) is "
+           "tied to the code on every run by per-event differential execution on a deterministic simulator driving real *Raft values, and a monitor "
+           "looks for two leaders in one term on the implementation. PARTIAL where stated: the refinement from node model to vote layer is argued per "
+           "handler lemma (C05 theorems), not yet mechanised as one simulation theorem; voter-set changes need the overlap hypothesis of C08.",
+  "design_ref": "DESIGN.md 4.4, 5 (C01), Appendix C",
+  "note": NODE_NOTE,
+  "technique": "Coq inductive-invariant proof on abstract vote protocol + per-event differential correspondence of the node model with the real handlers + monitor",
+ },
  "C13": {
   "level": "Machine-checked proof (Coq, no axioms) over an entry-level model of log.go/segment.go/util.go (one function per Go method, panics explicit): "
            "for every operation sequence from a fresh log, every entry size and segment size, the chain of segments stays well formed and every "
